@@ -467,7 +467,7 @@ class Runner:
         self.events = []
         self.detail = []        # per event: concrete request(s) and transcript, for reports / replays
         self.stats = {"requests": 0, "concrete": 0, "refused_accept": 0, "ordinary_failed": 0, "timeouts": 0,
-                      "by_status": {}, "restarts": 0, "big_stream_s": 0.0}
+                      "by_status": {}, "restarts": 0}
 
     def creq(self, step):
         t = self.P.tname(step["tenant"])
@@ -884,6 +884,7 @@ def report_mode(ck, mode, tag, P, R, plan, tr):
                        e["what"], bi, "on" if mode["auth"] else "off", mode["metric"], "; ".join(reasons),
                        json.dumps([(c["id"], P.slots[c["id"]][1], "present" if c["p"] else "absent") for c in changed[:6]]),
                        json.dumps(suspects[:3])[:900])
+        rep["finding_key"] = key
         if ck.violation(rep, what, finding_key=key):
             nviol += 1
     ck.cov["traces_validated_against_impl"] += len([e for e in R.events if e["ev"] == "req"]) - len(
